@@ -25,7 +25,7 @@ inductive GoVal where
   | uint (n : Nat)             -- Uint …
   | str (s : List Char)        -- String (also named string types)
   | bool (b : Bool)
-  | float (bits : Nat)         -- Float32/64 by their IEEE bits: IsZero ⇔ bits = 0 (so -0.0 is NOT zero)
+  | float (bits : Nat)         -- Float32/64 by their IEEE-754 binary64 bits: IsZero ⇔ `v.Float() == 0` ⇔ +0.0 or -0.0
   | nilPtr                     -- Ptr, nil
   | ptr (v : GoVal)            -- Ptr, non-nil: never zero, whatever it points to
   | nilSlice                   -- Slice, nil
@@ -45,7 +45,7 @@ def GoVal.isZero : GoVal → Bool
   | .uint n => n == 0
   | .str s => s.isEmpty
   | .bool b => !b
-  | .float bits => bits == 0
+  | .float bits => bits % 9223372036854775808 == 0
   | .nilPtr => true
   | .ptr _ => false
   | .nilSlice => true
